@@ -341,4 +341,44 @@ Proof.
     + right. apply check_intersection_left. split; [reflexivity|]. split; [reflexivity|assumption].
 Qed.
 
+(* the branches of a left-recursive rule that are not left recursive are checked against each other like the
+   branches of any alternation; everything nested (in all branches) is checked as usual *)
+Definition nonleft_of (recs : list recursion) (alts : list regex) : list regex :=
+  filter (fun o => negb (existsb (fun b => match b with
+                                           | RecLeft o' _ | RecLeftRight o' _ _ => Nat.eqb (rid_of o') (rid_of o)
+                                           | _ => false end) recs)) alts.
+
+Theorem top_alternation_exact fuel id alts recs c n :
+  is_ll1 c = true -> list_sum (map rsize alts) <= fuel ->
+  (In (c, n) (check_regex fi fo pr lf (S fuel) (RAlt id alts) recs) <->
+   (c = E011 /\ exists i op, nth_error (nonleft_of recs alts) i = Some op /\ n = rid_of op /\ has_predicate op = false
+                 /\ exists j o, i < j /\ nth_error (nonleft_of recs alts) j = Some o
+                                /\ share (get pr (rid_of op)) (get pr (rid_of o)))
+   \/ exists o, In o alts /\ Conflict fo pr o c n).
+Proof.
+  intros Hc Hf. cbn [check_regex]. fold (lefts_of recs). fold (nonleft_of recs alts). rewrite !in_app_iff.
+  assert (Hnest : In (c, n) (flat_map (fun o => check_regex fi fo pr lf fuel o []) alts) <-> exists o, In o alts /\ Conflict fo pr o c n).
+  { rewrite in_flat_map. split; intros (o & Ho & H); exists o; (split; [assumption|]).
+    - apply (check_regex_exact fi fo pr lf fuel o); [pose proof (rsize_in o alts Ho); lia|assumption|assumption].
+    - apply (check_regex_exact fi fo pr lf fuel o); [pose proof (rsize_in o alts Ho); lia|assumption|assumption]. }
+  rewrite Hnest. split.
+  - intros [H|[H|H]]; [|left|right; assumption].
+    + exfalso. apply in_flat_map in H. destruct H as ([i branch] & _ & H).
+      destruct (skip_first branch) as [op|]; [|destruct H as [H|[]]; injection H as <- _; discriminate].
+      destruct (has_predicate branch); [contradiction|].
+      apply in_app_iff in H. destruct H as [H|H].
+      * destruct (nonempty (inter (get pr (rid_of op)) (get lf id))); [|contradiction].
+        destruct H as [H|[]]. injection H as <- _. discriminate.
+      * apply check_intersection_left in H. destruct H as (-> & _). discriminate.
+    + apply in_flat_map in H. destruct H as ([i op] & Hin & H).
+      apply In_enumerate in Hin. destruct Hin as (j & -> & Hn). cbn [Nat.add] in *.
+      destruct (has_predicate op) eqn:Ep; [contradiction|].
+      apply check_intersection_shape in H. destruct H as (-> & -> & H).
+      apply check_intersection_plain in H.
+      split; [reflexivity|]. exists j, op. repeat split; assumption.
+  - intros [(-> & i & op & Hn & -> & Hp & H)|H]; [right; left|right; right; assumption].
+    apply in_flat_map. exists (i, op). split; [apply In_enumerate; exists i; split; [reflexivity|assumption]|].
+    rewrite Hp. apply check_intersection_shape. repeat split. apply check_intersection_plain. assumption.
+Qed.
+
 End LeftRec.
